@@ -141,7 +141,14 @@ macro_rules! direct_body {
             }
             return;
         }
-        if variant == 2 && !buf.is_empty() {
+        if variant == 5 {
+            // a tail call in the middle: `*_tail_blocks_inplace` on up to w-1 blocks first, then the rest as variant 2
+            let k = core::cmp::min(w.saturating_sub(1), buf.len());
+            let (t, rest) = buf.split_at_mut(k);
+            $backend.$tail_inplace(t);
+            buf = rest;
+        }
+        if (variant == 2 || variant == 5) && !buf.is_empty() {
             let (first, rest) = buf.split_at_mut(1);
             $backend.$block_inplace(&mut first[0]);
             buf = rest;
@@ -216,8 +223,22 @@ impl<BS: cipher::crypto_common::BlockSizes> cipher::StreamCipherClosure for Dire
             }
             return;
         }
-        let n_full = self.buf.len() / w * w;
-        let (full, rest) = self.buf.split_at_mut(n_full);
+        let mut buf: &mut [Array<u8, BS>] = self.buf;
+        if self.variant == 3 {
+            // a tail call in the middle: `gen_tail_blocks` on up to w-1 blocks first, then a single block, then the usual
+            // batches and the final tail — nothing says the tail entry point ends the closure
+            let k = core::cmp::min(w.saturating_sub(1), buf.len());
+            let (t, rest) = buf.split_at_mut(k);
+            backend.gen_tail_blocks(t);
+            buf = rest;
+            if !buf.is_empty() {
+                let (c, rest) = buf.split_at_mut(1);
+                backend.gen_ks_block(&mut c[0]);
+                buf = rest;
+            }
+        }
+        let n_full = buf.len() / w * w;
+        let (full, rest) = buf.split_at_mut(n_full);
         for c in full.chunks_exact_mut(w) {
             let pb: &mut ParBlocks<B> = c.try_into().unwrap();
             backend.gen_par_ks_blocks(pb);
@@ -562,7 +583,7 @@ impl<M: ModeOps> Obj for BlockObj<M> {
             }
             ["backend", v, x] => {
                 let (Ok(v), Some(mut b)) = (v.parse::<u8>(), unhex(x)) else { return bad() };
-                if b.len() % M::MBS != 0 || v > 4 {
+                if b.len() % M::MBS != 0 || v > 5 {
                     return bad();
                 }
                 self.m.backend(v, &mut b);
